@@ -368,6 +368,753 @@ def check_requests(ck, facts):
 
 
 # =====================================================================================================
+# clause 3 + 4a: per-neighbour coherence, completion handler
+# =====================================================================================================
+
+def index_exprs(body):
+    """(container expr, index expr, node) of every subscripting of a container object inside body"""
+    out = []
+    for n in walk(body):
+        if n.get("k") == "MCall" and callee_name(n) in ("at", "get_request", "get_status") and len(n.get("a", [])) == 1:
+            out.append((n.get("obj"), n["a"][0], n))
+        elif n.get("k") == "OpCall" and n.get("op") == "[]" and len(n.get("a", [])) == 2:
+            out.append((n["a"][0], n["a"][1], n))
+        elif n.get("k") == "Index":
+            out.append((n["b"], n["idx"], n))
+    return out
+
+
+def check_coherence(ck, facts):
+    irecv_fields = {}
+    for fn in facts.functions:
+        if fn.tk == "pattern" or not fn.file.startswith(R("kernel/global/synch")):
+            continue
+        rs = Resolver(fn)
+        for c in calls_of(fn):
+            if strip_targs(c.get("callee", "")) == "FEAT::Dist::Comm::irecv":
+                for a, pn, pt in dfl.call_args_with_params(c, fn):
+                    if pn == "buffer":
+                        br = buffer_root(rs, a)
+                        if br and br[0] == "field":
+                            irecv_fields.setdefault(fn.cls, set()).add(br[1])
+    for fn in facts.functions:
+        if fn.tk == "pattern" or not fn.file.startswith(R("kernel/global/synch")) or fn.cfg is None:
+            continue
+        rs = Resolver(fn)
+        par = dfl.parents(fn)
+        cfg = fn.cfg
+        loops = [n for n in fn.nodes() if n.get("k") in ("For", "While")]
+        ordinal = {}
+        has_gather = any(c.get("k") == "MCall" and callee_name(c) == "gather" for c in calls_of(fn))
+        for L in loops:
+            body = L.get("body")
+            posts = [c for c in walk(body) if is_call(c) and POST_RE.match(strip_targs(c.get("callee", "")))]
+            mirror_ops = [c for c in walk(body) if c.get("k") == "MCall" and callee_name(c) in ("gather", "scatter_axpy", "buffer_size", "create_buffer")]
+            cond = L.get("c")
+            is_wait_any = cond is not None and cond.get("k") == "MCall" and callee_name(cond) == "wait_any"
+            if not posts and not mirror_ops and not is_wait_any:
+                continue
+            # index variable of the iteration
+            ivar = None
+            if is_wait_any:
+                a = dfl.arg_by_param(cond, "idx")
+                if a is not None and a.get("k") == "Ref":
+                    ivar = a.get("d")
+            else:
+                ini = L.get("init")
+                if ini is not None and ini.get("k") == "Decl" and len(ini.get("vars", [])) == 1:
+                    ivar = ini["vars"][0]["d"]
+            role = "complete" if is_wait_any else "+".join(sorted({callee_name(c) for c in posts} | ({"gather"} if any(callee_name(c) == "gather" for c in mirror_ops) else set()))) or "mirrors"
+            ordinal[role] = ordinal.get(role, 0) + 1
+            key = "%s/loop:%s#%d" % (fkey(fn), role, ordinal[role])
+            if ivar is None:
+                ck.incomplete("E14.neighbour-coherence", key + ": iteration variable of the neighbour loop not recognised")
+                continue
+            problems = []
+            nidx = 0
+            for cont, ix, node in index_exprs(body):
+                v = rs.value(ix)
+                if v.get("k") == "Int":
+                    continue
+                if v.get("k") in ("Cast", "Construct", "TempObj") and len(v.get("a", []) or [v.get("e")]) == 1:
+                    v = rs.value((v.get("a") or [v.get("e")])[0])
+                nidx += 1
+                if not (v.get("k") == "Ref" and v.get("d") == ivar):
+                    problems.append((node.get("l"), "%s is subscripted with %s, every per-neighbour object in this iteration must use the iteration's neighbour index" % (render(cont)[:40], render(ix))))
+            for c in posts:
+                buf = cnt = None
+                for a, pn, pt in dfl.call_args_with_params(c, fn):
+                    if pn in BUF_PARAMS:
+                        buf = a
+                    elif pn == "count":
+                        cnt = a
+                if buf is not None and cnt is not None and buf.get("k") == "MCall":
+                    bobj = rs.path(buf.get("obj"))
+                    cobjs = [rs.path(x.get("obj")) for x in walk(cnt) if x.get("k") == "MCall" and x.get("obj") is not None and not rs.path(x.get("obj")).opaque()
+                             and callee_name(x) not in ("at",)]
+                    if cobjs and any(co != bobj for co in cobjs):
+                        problems.append((c.get("l"), "message length %s is taken from another object than the buffer %s" % (render(cnt)[:60], render(buf)[:60])))
+                if callee_name(c) == "isend" and has_gather and buf is not None and buf.get("k") == "MCall":
+                    bobj = rs.path(buf.get("obj"))
+                    ok = False
+                    for g in mirror_ops:
+                        if callee_name(g) == "gather":
+                            ga = dfl.arg_by_param(g, "buffer") or (g["a"][0] if g.get("a") else None)
+                            if ga is not None and rs.path(ga) == bobj and cfg.stmt_dominates(g["i"], c["i"]):
+                                ok = True
+                    if not ok:
+                        problems.append((c.get("l"), "the send buffer %s is not filled by a mirror gather into the same buffer on every path before isend" % render(buf.get("obj"))[:60]))
+                # push_back keeps slot == neighbour index only if executed exactly once per iteration
+                pr = par.get(id(c))
+                if pr and pr[0].get("k") == "MCall" and callee_name(pr[0]) == "push_back":
+                    cur = pr[0]
+                    while id(cur) in par and par[id(cur)][0] is not L:
+                        cur = par[id(cur)][0]
+                        if cur.get("k") in ("If", "Cond", "Switch", "While", "For"):
+                            problems.append((c.get("l"), "the request is appended conditionally: request slot and neighbour index no longer coincide"))
+                            break
+            if is_wait_any:
+                # completion handler: exactly scatter_axpy(mirror[idx], buffer[idx]) into the target
+                effects = []
+                for c in walk(body):
+                    if not is_call(c) or c.get("callee") in dfl.MOVE_FNS:
+                        continue
+                    writes_arg = any(pt is not None and is_nonconst_ref(pt) for a, pn, pt in dfl.call_args_with_params(c, fn) if a is not dfl.receiver(c))
+                    pr = par.get(id(c))
+                    stmt_pos = pr is not None and pr[0].get("k") in ("Block", "For", "While", "If") and pr[1] != "c"
+                    if writes_arg or (c.get("k") in ("MCall", "OpCall") and not c.get("cconst") and stmt_pos):
+                        effects.append(c)
+                hs = [c for c in effects if callee_name(c) == "scatter_axpy"]
+                others = [c for c in effects if callee_name(c) != "scatter_axpy"]
+                if len(hs) != 1:
+                    problems.append((L.get("l"), "%d scatter_axpy handlers in the completion loop (expected exactly one)" % len(hs)))
+                for c in others:
+                    problems.append((c.get("l"), "completion loop also executes %s: handlers of different neighbours may no longer commute" % render(c)[:60]))
+                for h in hs:
+                    b = dfl.arg_by_param(h, "buffer")
+                    br = buffer_root(rs, b) if b is not None else None
+                    if br is None or br[0] != "field" or br[1] not in irecv_fields.get(fn.cls, set()):
+                        problems.append((h.get("l"), "handler scatters %s, which is not a buffer that irecv was posted on (%s)" % (render(b), sorted(irecv_fields.get(fn.cls, [])))))
+                    al = dfl.arg_by_param(h, "alpha")
+                    if al is not None:
+                        v = rs.value(al)
+                        while v.get("k") in ("Construct", "TempObj", "Cast") and len(v.get("a", []) or [v.get("e")]) == 1:
+                            v = rs.value((v.get("a") or [v.get("e")])[0])
+                        if not (v.get("k") in ("Int", "Float") and float(v.get("text") or v.get("v")) == 1.0):
+                            problems.append((h.get("l"), "received contribution scaled by alpha=%s" % render(al)))
+                    mo = h.get("obj")
+                    mst = rs.path(mo).steps if mo is not None else ()
+                    if not (mst and mst[-1][0] == "call" and mst[-1][1] == "at"):
+                        problems.append((h.get("l"), "handler mirror %s is not the per-neighbour mirror" % render(mo)))
+            ck.ob("E14.neighbour-coherence" if not is_wait_any else "E5.handler-commutes", key, not problems,
+                  "; ".join("line %s: %s" % p for p in problems) or ("%d subscripts, all with the iteration's neighbour index%s" % (
+                      nidx, "; handler = mirror[idx].scatter_axpy(target, recv_buffer[idx], 1)" if is_wait_any else "")), fn.file, problems[0][0] if problems else L.get("l"))
+
+
+# =====================================================================================================
+# clause 4b: mirror kernels only add; gather and scatter address the same (buffer, vector) cells
+# =====================================================================================================
+
+def canon(fn, n):
+    """rendering with locals renamed by declaration order (independent of local names)"""
+    order = {}
+    for x in fn.nodes():
+        if x.get("k") == "For" and x.get("init") is not None and x["init"].get("k") == "Decl" and len(x["init"].get("vars", [])) == 1:
+            c = x.get("c")
+            v = x["init"]["vars"][0]
+            if c is not None and c.get("k") == "Bin" and c.get("op") == "<" and c["lhs"].get("k") == "Ref" and c["lhs"].get("d") == v["d"]:
+                order[v["d"]] = "#" + render(c["rhs"])        # a loop variable is named after the extent it ranges over
+    for x in fn.nodes():
+        if x.get("k") == "Var" and x.get("d") not in order:
+            order[x["d"]] = "L%d" % len(order)
+
+    def r(x):
+        k = x.get("k")
+        if k == "Ref":
+            return order.get(x.get("d"), x.get("n")) if x.get("dk") == "local" else x.get("n")
+        if k == "Index":
+            return "%s[%s]" % (r(x["b"]), r(x["idx"]))
+        if k == "Bin":
+            a, b = r(x["lhs"]), r(x["rhs"])
+            if x["op"] in ("+", "*") and b < a:
+                a, b = b, a
+            return "(%s%s%s)" % (a, x["op"], b)
+        if k == "Cast":
+            return r(x["e"])
+        if k in ("Construct", "TempObj") and len(x.get("a", [])) == 1:
+            return r(x["a"][0])
+        return render(x)
+    return r(n)
+
+
+def kernel_accesses(fn):
+    """[(array param name, canonical index, 'store'|'load', assignment op)] of a mirror kernel"""
+    pnames = {p["d"]: p["n"] for p in fn.params}
+    out = []
+    stores = set()
+    for n in fn.nodes():
+        if n.get("k") == "Assign" and n["lhs"].get("k") == "Index" and n["lhs"]["b"].get("k") == "Ref" and n["lhs"]["b"].get("d") in pnames:
+            out.append((pnames[n["lhs"]["b"]["d"]], canon(fn, n["lhs"]["idx"]), "store", n.get("op"), n))
+            stores.add(id(n["lhs"]))
+    for n in fn.nodes():
+        if n.get("k") == "Index" and id(n) not in stores and n["b"].get("k") == "Ref" and n["b"].get("d") in pnames:
+            out.append((pnames[n["b"]["d"]], canon(fn, n["idx"]), "load", None, n))
+    return out
+
+
+def check_kernels(ck, facts):
+    gens = {}
+    for fn in facts.functions:
+        m = re.match(r"FEAT::LAFEM::Arch::Mirror::(gather|scatter)_(dv|dvb|sv|svb)_generic$", strip_targs(fn.qn))
+        if m and fn.tk != "pattern":
+            gens.setdefault((m.group(1), m.group(2)), fn)
+    for kind in ("dv", "dvb", "sv", "svb"):
+        g, sc = gens.get(("gather", kind)), gens.get(("scatter", kind))
+        if g is None or sc is None:
+            ck.incomplete("E5.scatter-kernel-additive", "mirror kernel pair %s not instantiated" % kind)
+            continue
+        out_arr = "vec" if kind in ("dv", "dvb") else "vval"
+        acc = kernel_accesses(sc)
+        problems = []
+        stores = [a for a in acc if a[2] == "store"]
+        if not stores:
+            problems.append((sc.line, "no store found"))
+        for arr, ix, _, op, node in stores:
+            if arr != out_arr:
+                problems.append((node.get("l"), "scatter kernel writes array '%s' (only the vector values '%s' may be written)" % (arr, out_arr)))
+            elif op != "+=":
+                problems.append((node.get("l"), "store %s uses '%s': a plain assignment makes the result depend on the order in which neighbour buffers arrive" % (render(node)[:60], op)))
+            rhs_reads = [x for x in walk(node["rhs"]) if x.get("k") == "Ref" and x.get("n") == out_arr]
+            if rhs_reads:
+                problems.append((node.get("l"), "right-hand side reads the output array %s" % out_arr))
+            if not any(x.get("k") == "Ref" and x.get("n") == "buf" for x in walk(node["rhs"])) or not any(x.get("k") == "Ref" and x.get("n") == "alpha" for x in walk(node["rhs"])):
+                problems.append((node.get("l"), "contribution is not alpha*buf[...]"))
+        for arr, ix, what, op, node in acc:
+            if what == "load" and arr == out_arr:
+                pr = None
+                problems.append((node.get("l"), "scatter kernel reads %s[%s] outside a compound addition" % (arr, ix)))
+        ck.ob("E5.scatter-kernel-additive", "Arch::Mirror::scatter_%s_generic" % kind, not problems,
+              "; ".join("line %s: %s" % p for p in problems) or "all %d stores are %s[...] += alpha*buf[...]; %s is not read otherwise" % (len(stores), out_arr, out_arr),
+              sc.file, problems[0][0] if problems else sc.line)
+        # gather: only buf is written, by plain assignment
+        gacc = kernel_accesses(g)
+        gp = []
+        for arr, ix, what, op, node in gacc:
+            if what == "store" and arr != "buf":
+                gp.append((node.get("l"), "gather kernel writes array '%s'" % arr))
+        # pair agreement: same buffer cells, same vector cells
+        def cells(acc, arr):
+            return sorted({ix for a, ix, what, op, node in acc if a == arr})
+        for arr in ("buf", out_arr, "idx"):
+            if cells(gacc, arr) != cells(acc, arr):
+                gp.append((g.line, "gather addresses %s[%s] but scatter addresses %s[%s]: what one side packs is not what the other side unpacks" % (
+                    arr, ", ".join(cells(gacc, arr)), arr, ", ".join(cells(acc, arr)))))
+        ck.ob("E2.gather-scatter-agree", "Arch::Mirror::{gather,scatter}_%s_generic" % kind, not gp,
+              "; ".join("line %s: %s" % p for p in gp) or "buffer cells %s and vector cells %s agree between gather and scatter" % (cells(acc, "buf"), cells(acc, out_arr)),
+              g.file, gp[0][0] if gp else g.line)
+    # dispatchers forward to the generic kernel of the same name with identical argument order
+    seen = set()
+    agg = {}
+    for fn in facts.functions:
+        m = re.match(r"FEAT::LAFEM::Arch::Mirror::((gather|scatter)_(dv|dvb|sv|svb))$", strip_targs(fn.qn))
+        if not m or fn.tk == "pattern":
+            continue
+        sig = (m.group(1), dfl_hash(fn))
+        if sig in seen:
+            continue
+        seen.add(sig)
+        cs = [c for c in calls_of(fn) if strip_targs(c.get("callee", "")).startswith("FEAT::LAFEM::Arch::Mirror::")]
+        ok = bool(cs)
+        detail = []
+        for c in cs:
+            if not re.match(r"FEAT::LAFEM::Arch::Mirror::%s_(generic|cuda|mkl)$" % m.group(1), strip_targs(c.get("callee", ""))):
+                ok = False
+                detail.append("forwards to %s" % c.get("callee"))
+            args = c.get("a", [])
+            if len(args) != len(fn.params) or any(not (a.get("k") == "Ref" and a.get("d") == p["d"]) for a, p in zip(args, fn.params)) \
+                    or (c.get("pn") or []) != [p["n"] for p in fn.params]:
+                ok = False
+                detail.append("argument order of %s differs from the own parameter list" % render(c)[:80])
+        agg.setdefault(m.group(1), []).append((ok, "; ".join(detail), fn))
+    for name, res in sorted(agg.items()):
+        bad = [r_ for r_ in res if not r_[0]]
+        ck.ob("E1.mirror-dispatch", "Arch::Mirror::%s" % name, not bad, bad[0][1] if bad else "%d overload(s) forward their parameters unchanged to %s_generic" % (len(res), name),
+              res[0][2].file, (bad[0][2] if bad else res[0][2]).line)
+    # VectorMirror call sites
+    for fn in facts.functions:
+        if fn.tk == "pattern" or strip_targs(fn.cls) != "FEAT::LAFEM::VectorMirror" or fn.name not in ("gather", "scatter_axpy"):
+            continue
+        cs = [c for c in calls_of(fn) if re.match(r"FEAT::LAFEM::Arch::Mirror::(gather|scatter)_", strip_targs(c.get("callee", "")))]
+        vecp = [p for p in fn.params if re.search(r"(Dense|Sparse)Vector(Blocked)?<", fn.type(p["t"]))]
+        key = "VectorMirror::%s(%s)" % (fn.name, ",".join(re.sub(r".*?((Dense|Sparse)Vector(Blocked)?).*", r"\1", fn.type(p["t"])) for p in vecp))
+        if len(cs) != 1 or len(vecp) != 2:
+            ck.incomplete("E1.mirror-roles", "%s: %d kernel calls, %d vector parameters" % (key, len(cs), len(vecp)))
+            continue
+        c = cs[0]
+        written = [p for p in vecp if is_nonconst_ref(fn.type(p["t"]))]
+        readonly = [p for p in vecp if not is_nonconst_ref(fn.type(p["t"]))]
+        problems = []
+        if len(written) != 1 or len(readonly) != 1:
+            ck.incomplete("E1.mirror-roles", key + ": cannot tell the written from the read vector")
+            continue
+        is_gather = fn.name == "gather"
+        bufp, vecpar = (written[0], readonly[0]) if is_gather else (readonly[0], written[0])
+        vt = fn.type(vecpar["t"])
+        suffix = {"DenseVector": "dv", "DenseVectorBlocked": "dvb", "SparseVector": "sv", "SparseVectorBlocked": "svb"}.get(re.sub(r".*?((Dense|Sparse)Vector(Blocked)?)<.*", r"\1", vt))
+        want = "%s_%s" % ("gather" if is_gather else "scatter", suffix)
+        if callee_name(c) != want:
+            problems.append("calls kernel %s, expected %s for %s" % (callee_name(c), want, vt[:50]))
+
+        def is_acc(a, par_d, names):
+            return a is not None and a.get("k") == "MCall" and callee_name(a) in names and (a.get("obj") or {}).get("k") == "Ref" and a["obj"].get("d") == par_d
+
+        def is_this(a, name):
+            return a is not None and a.get("k") == "MCall" and callee_name(a) == name and (a.get("obj") is None or a["obj"].get("k") == "This")
+        roles = {pn: a for a, pn, pt in dfl.call_args_with_params(c, fn)}
+        if not is_acc(roles.get("buf"), bufp["d"], ("elements",)):
+            problems.append("slot buf <- %s, expected %s.elements() (the %s DenseVector parameter)" % (render(roles.get("buf")), bufp["n"], "written" if is_gather else "read-only"))
+        vslot = "vec" if suffix in ("dv", "dvb") else "vval"
+        if not is_acc(roles.get(vslot), vecpar["d"], ("elements",)):
+            problems.append("slot %s <- %s, expected %s.elements()" % (vslot, render(roles.get(vslot)), vecpar["n"]))
+        if suffix in ("sv", "svb"):
+            if not is_acc(roles.get("vidx"), vecpar["d"], ("indices",)):
+                problems.append("slot vidx <- %s, expected %s.indices()" % (render(roles.get("vidx")), vecpar["n"]))
+            if not is_acc(roles.get("nvec"), vecpar["d"], ("used_elements",)):
+                problems.append("slot nvec <- %s, expected %s.used_elements()" % (render(roles.get("nvec")), vecpar["n"]))
+        if not is_this(roles.get("idx"), "indices"):
+            problems.append("slot idx <- %s, expected this->indices()" % render(roles.get("idx")))
+        if not is_this(roles.get("nidx"), "num_indices"):
+            problems.append("slot nidx <- %s, expected this->num_indices()" % render(roles.get("nidx")))
+        offp = [p for p in fn.params if p not in vecp and "Index" in fn.type(p["t"]) or fn.type(p["t"]).replace("const ", "") in ("unsigned long", "unsigned int")]
+        offp = [p for p in offp if p not in vecp]
+        b = roles.get("boff")
+        if not (b is not None and b.get("k") == "Ref" and len(offp) == 1 and b.get("d") == offp[0]["d"]):
+            problems.append("slot boff <- %s, expected the buffer offset parameter" % render(b))
+        if not is_gather:
+            al = roles.get("alpha")
+            alp = [p for p in fn.params if p not in vecp and p not in offp]
+            if not (al is not None and al.get("k") == "Ref" and len(alp) == 1 and al.get("d") == alp[0]["d"]):
+                problems.append("slot alpha <- %s, expected the scaling parameter" % render(al))
+        if suffix in ("dvb", "svb"):
+            bsz = re.search(r", (\d+)>\s*&?$", vt.strip())
+            bs = roles.get("bs")
+            lit = [x for x in walk(bs)] if bs is not None else []
+            val = next((x.get("v") for x in lit if x.get("k") == "Int"), None)
+            if bsz is None or val is None or str(val) != bsz.group(1):
+                problems.append("slot bs <- %s, expected the block size of %s" % (render(bs), vt[:60]))
+        ck.ob("E1.mirror-roles", key, not problems, "; ".join(problems) or "kernel %s with buf <- %s.elements(), %s <- %s.elements(), idx/nidx of this mirror, boff, %s" % (
+            want, bufp["n"], vslot, vecpar["n"], "alpha" if not is_gather else "no scaling"), fn.file, c.get("l"))
+
+
+def dfl_hash(fn):
+    import hashlib
+    h = hashlib.sha1()
+    for n in fn.nodes():
+        h.update(("%s|%s|%s|%s;" % (n.get("k"), strip_targs(n.get("callee", "") or ""), n.get("n", ""), n.get("op", ""))).encode())
+    return h.hexdigest()
+
+
+# =====================================================================================================
+# clause 5: type-0 / type-1 discipline
+# =====================================================================================================
+
+def unwrap_val(rs, n):
+    n = rs.value(n)
+    while n is not None and n.get("k") in ("Construct", "TempObj", "Cast") and len(n.get("a", []) or ([n["e"]] if n.get("e") else [])) == 1:
+        n = rs.value((n.get("a") or [n.get("e")])[0])
+    return n
+
+
+def is_lit_one(rs, n):
+    n = unwrap_val(rs, n)
+    if n is None:
+        return False
+    try:
+        return n.get("k") in ("Int", "Float") and float(n.get("text") or n.get("v")) == 1.0
+    except ValueError:
+        return False
+
+
+def enclosing_conds(par, n):
+    """[(condition node, branch 'then'|'else')] of the if statements around n (innermost first)"""
+    out = []
+    cur = n
+    while id(cur) in par:
+        p, slot = par[id(cur)]
+        if p.get("k") == "If" and slot in ("then", "else"):
+            out.append((p["c"], slot))
+        cur = p
+    return out
+
+
+def this_field(n):
+    if n is not None and n.get("k") == "Member" and n.get("field") and (n.get("b") is None or n["b"].get("k") == "This"):
+        return n["n"]
+    return None
+
+
+def param_local(n, d, rs=None):
+    """n is P.local() of the parameter with decl d (reference locals resolved when a resolver is given)"""
+    if n is None:
+        return False
+    if rs is not None:
+        st = rs.path(n).steps
+        return len(st) == 2 and st[0] == ("param", d) and st[1][0] == "call" and st[1][1] == "local"
+    return n.get("k") == "MCall" and callee_name(n) == "local" and (n.get("obj") or {}).get("k") == "Ref" and n["obj"].get("d") == d
+
+
+def check_global_matrix(ck, facts):
+    for fn in facts.functions:
+        if fn.tk == "pattern" or strip_targs(fn.cls) != "FEAT::Global::Matrix" or fn.name not in ("apply", "apply_transposed", "apply_async", "apply_transposed_async"):
+            continue
+        if len(fn.params) not in (2, 4) or fn.cfg is None:
+            continue
+        key = "%s::%s/%d" % (ckey(fn.cls), fn.name, len(fn.params))
+        rs = Resolver(fn)
+        want = "apply_transposed" if "transposed" in fn.name else "apply"
+        is_async = fn.name.endswith("_async")
+        pr, px = fn.params[0], fn.params[1]
+        locs = [c for c in calls_of(fn) if c.get("k") == "MCall" and this_field(c.get("obj")) is not None and callee_name(c).startswith("apply")]
+        problems = []
+        if len(locs) != 1:
+            problems.append("%d applications of the local matrix (expected exactly one)" % len(locs))
+        for c in locs:
+            if callee_name(c) != want:
+                problems.append("calls local %s, method parity requires %s" % (callee_name(c), want))
+            a = {pn: x for x, pn, pt in dfl.call_args_with_params(c, fn)}
+            if not param_local(a.get("r"), pr["d"], rs):
+                problems.append("result slot r <- %s, expected %s.local()" % (render(a.get("r")), pr["n"]))
+            if not param_local(a.get("x"), px["d"], rs):
+                problems.append("slot x <- %s, expected %s.local()" % (render(a.get("x")), px["n"]))
+            if len(fn.params) == 4:
+                py, pa = fn.params[2], fn.params[3]
+                if not param_local(a.get("y"), pr["d"], rs):
+                    problems.append("slot y <- %s, expected %s.local() (the type-0 copy of %s)" % (render(a.get("y")), pr["n"], py["n"]))
+                al = a.get("alpha")
+                if not (al is not None and al.get("k") == "Ref" and al.get("d") == pa["d"]):
+                    problems.append("slot alpha <- %s" % render(al))
+                # r.copy(y); r.from_1_to_0() dominate the local product, exactly once each
+                cps = [m for m in calls_of(fn) if m.get("k") == "MCall" and callee_name(m) == "copy" and (m.get("obj") or {}).get("d") == pr["d"]
+                       and m.get("a") and m["a"][0].get("k") == "Ref" and m["a"][0].get("d") == py["d"]]
+                f10 = [m for m in calls_of(fn) if m.get("k") == "MCall" and callee_name(m) == "from_1_to_0" and (m.get("obj") or {}).get("d") == pr["d"]]
+                if len(cps) != 1 or len(f10) != 1:
+                    problems.append("expected exactly one %s.copy(%s) and one %s.from_1_to_0() (found %d, %d): the type-1 summand y must be converted to type-0 once before the local product is added" % (
+                        pr["n"], py["n"], pr["n"], len(cps), len(f10)))
+                elif not (fn.cfg.stmt_dominates(cps[0]["i"], f10[0]["i"]) and fn.cfg.stmt_dominates(f10[0]["i"], c["i"])):
+                    problems.append("order must be copy(y) -> from_1_to_0() -> local product")
+            else:
+                extra = [m for m in calls_of(fn) if m.get("k") == "MCall" and callee_name(m) in ("from_1_to_0", "sync_1") and (m.get("obj") or {}).get("d") == pr["d"]]
+                if extra:
+                    problems.append("2-operand product must not rescale the result (%s)" % render(extra[0]))
+            syncname = "sync_0_async" if is_async else "sync_0"
+
+            def is_sync(m, syncname=syncname):
+                return m.get("k") == "MCall" and callee_name(m) == syncname and (m.get("obj") or {}).get("k") == "Ref" and m["obj"].get("d") == pr["d"]
+            from checks.c18 import after_on_all_paths
+            if not after_on_all_paths(fn, c, is_sync):
+                problems.append("the type-0 result of the local product is not synchronised by %s.%s() on every path afterwards" % (pr["n"], syncname))
+            if is_async:
+                rets = [n for n in walk(fn.body) if n.get("k") == "Return"]
+                for r_ in rets:
+                    if not any(is_sync(m) for m in walk(r_.get("e"))):
+                        problems.append("a return does not hand out the ticket of %s.sync_0_async()" % pr["n"])
+        ck.ob("E7.matrix-apply-sync", key, not problems, "; ".join(problems) or "local %s on (r.local(), x.local()%s) followed by %s on every path" % (
+            want, ", r.local(), alpha) after copy(y), from_1_to_0(" if len(fn.params) == 4 else "", "sync_0_async" if is_async else "sync_0"), fn.file, fn.line)
+
+
+OPS = {"sum_async": ("op_sum", None), "min_async": ("op_min", False), "max_async": ("op_max", False), "norm2_async": ("op_sum", True)}
+
+
+def check_gate(ck, facts):
+    classes = sorted({f.cls for f in facts.functions if strip_targs(f.cls) == "FEAT::Global::Gate" and f.tk != "pattern" and f.name == "compile"})
+    for cls in classes:
+        fns = {}
+        for f in facts.functions:
+            if f.cls == cls and f.tk != "pattern":
+                fns.setdefault(f.name, []).append(f)
+        ck_ = ckey(cls)
+
+        def one(name):
+            c = fns.get(name, [])
+            if len(c) != 1:
+                ck.incomplete("E7.gate-discipline", "%s::%s: %d definitions" % (ck_, name, len(c)))
+                return None
+            return c[0]
+        # ---- field identities from push() and compile() ------------------------------------------------
+        push, comp = one("push"), one("compile")
+        if push is None or comp is None:
+            continue
+        ranks_f = mirrors_f = None
+        for c in calls_of(push):
+            if c.get("k") == "MCall" and callee_name(c) == "push_back" and this_field(c.get("obj")):
+                src = [x for x in walk(c["a"][0]) if x.get("k") == "Ref" and x.get("dk") == "param"]
+                if src and src[0]["d"] == push.params[0]["d"]:
+                    ranks_f = this_field(c["obj"])
+                elif src and src[0]["d"] == push.params[1]["d"]:
+                    mirrors_f = this_field(c["obj"])
+        inv = [c for c in calls_of(comp) if c.get("k") == "MCall" and callee_name(c) == "component_invert" and this_field(c.get("obj"))]
+        freqs_f = this_field(inv[0]["obj"]) if len(inv) == 1 else None
+        # ---- compile: freqs = 1 / (1 + sum over mirrors) -----------------------------------------------
+        rs = Resolver(comp)
+        par = dfl.parents(comp)
+        cfg = comp.cfg
+        problems = []
+        if ranks_f is None or mirrors_f is None:
+            ck.incomplete("E7.gate-freqs", ck_ + ": rank / mirror fields not recognised from push()")
+            continue
+        if freqs_f is None:
+            problems.append((comp.line, "%d component_invert calls on a member (expected exactly one: the frequencies are the reciprocal of the multiplicities)" % len(inv)))
+        else:
+            iv = inv[0]
+            x = dfl.arg_by_param(iv, "x")
+            if this_field(x) != freqs_f:
+                problems.append((iv.get("l"), "component_invert(%s) does not invert %s itself" % (render(x), freqs_f)))
+            al = dfl.arg_by_param(iv, "alpha")
+            if al is not None and not is_lit_one(rs, al):
+                problems.append((iv.get("l"), "reciprocal taken with numerator %s" % render(al)))
+            if dfl.enclosing_loops(comp, par, iv):
+                problems.append((iv.get("l"), "the inversion is inside a loop"))
+            mp, bad = cfg.must_pass(lambda n: n.get("i") == iv["i"])
+            if not mp:
+                problems.append((iv.get("l"), "a path leaves compile() without inverting the multiplicities"))
+            fm = [c for c in calls_of(comp) if c.get("k") == "MCall" and callee_name(c) == "format" and this_field(c.get("obj")) == freqs_f]
+            if not (len(fm) == 1 and fm[0].get("a") and is_lit_one(rs, fm[0]["a"][0]) and not dfl.enclosing_loops(comp, par, fm[0])):
+                problems.append((comp.line, "%s is not initialised once to 1 (own contribution of this process) before the neighbour contributions are added" % freqs_f))
+            scs = [c for c in calls_of(comp) if c.get("k") == "MCall" and callee_name(c) == "scatter_axpy"]
+            if len(scs) != 1:
+                problems.append((comp.line, "%d scatter_axpy calls (expected one, in the loop over all mirrors)" % len(scs)))
+            for sc in scs:
+                loops = dfl.enclosing_loops(comp, par, sc)
+                tgt, buf, al = dfl.arg_by_param(sc, "vector"), dfl.arg_by_param(sc, "buffer"), dfl.arg_by_param(sc, "alpha")
+                if this_field(tgt) != freqs_f:
+                    problems.append((sc.get("l"), "mirror contributions are added to %s instead of %s" % (render(tgt), freqs_f)))
+                if al is not None and not is_lit_one(rs, al):
+                    problems.append((sc.get("l"), "mirror contribution scaled by %s" % render(al)))
+                if fm and not cfg.stmt_dominates(fm[0]["i"], sc["i"]):
+                    problems.append((sc.get("l"), "contributions are added before %s is formatted" % freqs_f))
+                if not cfg.stmt_dominates(sc["i"], iv["i"]) and loops:
+                    pass
+                if len(loops) != 1:
+                    problems.append((sc.get("l"), "scatter_axpy is not inside exactly one loop over the mirrors"))
+                else:
+                    L = loops[0]
+                    c = L.get("c")
+                    bnd = rs.value(c["rhs"]) if c is not None and c.get("k") == "Bin" and c.get("op") == "<" else None
+                    bound_ok = bnd is not None and bnd.get("k") == "MCall" and callee_name(bnd) == "size" and this_field(bnd.get("obj")) == mirrors_f
+                    ini = L.get("init")
+                    zero = ini is not None and ini.get("k") == "Decl" and len(ini["vars"]) == 1 and (unwrap_val(rs, ini["vars"][0].get("init")) or {}).get("v") in ("0", 0)
+                    if not (bound_ok and zero):
+                        problems.append((L.get("l"), "the loop does not range over all mirrors 0 .. %s.size()" % mirrors_f))
+                    mo = sc.get("obj")
+                    mst = rs.path(mo).steps if mo is not None else ()
+                    if not (len(mst) == 3 and mst[0] == ("this",) and mst[1] == ("field", mirrors_f) and mst[2][0] == "call" and mst[2][1] == "at"):
+                        problems.append((sc.get("l"), "contribution scattered by %s, not by a mirror of %s" % (render(mo), mirrors_f)))
+                    # buffer: created by the same mirror for the frequency vector and filled with ones
+                    if buf is None or buf.get("k") != "Ref" or buf.get("dk") != "local":
+                        problems.append((sc.get("l"), "buffer %s is not a local buffer" % render(buf)))
+                    else:
+                        v = rs.var(buf["d"])
+                        ini = v.get("init") if v else None
+                        if not (ini is not None and ini.get("k") == "MCall" and callee_name(ini) in ("create_buffer",) and mo is not None and rs.path(ini.get("obj")) == rs.path(mo)):
+                            problems.append((sc.get("l"), "buffer %s is not created by the mirror that scatters it" % render(buf)))
+                        wr = [m for m in calls_of(comp) if m.get("k") == "MCall" and (m.get("obj") or {}).get("d") == buf["d"] and not m.get("cconst") and cfg.stmt_dominates(m["i"], sc["i"])]
+                        if not (wr and callee_name(wr[-1]) == "format" and wr[-1].get("a") and is_lit_one(rs, wr[-1]["a"][0])):
+                            problems.append((sc.get("l"), "buffer %s is not filled with ones before it is scattered" % render(buf)))
+                if not (len(loops) == 1 and cfg.stmt_dominates(fm[0]["i"] if fm else sc["i"], sc["i"])):
+                    pass
+            # nothing touches the frequencies after the inversion
+            for c in calls_of(comp):
+                if c.get("k") == "MCall" and this_field(c.get("obj")) == freqs_f and not c.get("cconst") and c is not iv and cfg.stmt_dominates(iv["i"], c["i"]):
+                    problems.append((c.get("l"), "%s modified after the inversion by %s" % (freqs_f, callee_name(c))))
+            if scs and dfl.enclosing_loops(comp, par, scs[0]):
+                # inversion after the loop: the loop header dominates it and it is not in the loop (checked above)
+                pass
+        ck.ob("E7.gate-freqs", ck_ + "::compile", not problems, "; ".join("line %s: %s" % p for p in problems) or
+              "%s := 1; += 1 from every mirror of %s; component_invert once, last" % (freqs_f, mirrors_f), comp.file, problems[0][0] if problems else comp.line)
+        if freqs_f is None:
+            continue
+        # ---- dot -----------------------------------------------------------------------------------
+        d = one("dot")
+        if d is not None:
+            rs = Resolver(d)
+            par = dfl.parents(d)
+            px, py = d.params[0]["d"], d.params[1]["d"]
+            problems = []
+            weighted = 0
+
+            def is_xy(a, b):
+                return {a.get("d"), b.get("d")} == {px, py} and a.get("k") == "Ref" and b.get("k") == "Ref"
+            for r_ in [n for n in walk(d.body) if n.get("k") == "Return"]:
+                e = r_.get("e")
+                conds = enclosing_conds(par, r_)
+                inner = e
+                summed = False
+                if e is not None and e.get("k") == "MCall" and callee_name(e) == "sum" and len(e.get("a", [])) == 1:
+                    inner, summed = e["a"][0], True
+                if inner is not None and inner.get("k") == "MCall" and callee_name(inner) == "triple_dot" and this_field(inner.get("obj")) == freqs_f \
+                        and len(inner.get("a", [])) == 2 and is_xy(*inner["a"]) and summed:
+                    weighted += 1
+                    continue
+                if inner is not None and inner.get("k") == "MCall" and callee_name(inner) == "dot" and len(inner.get("a", [])) == 1 and is_xy(inner.get("obj") or {}, inner["a"][0]):
+                    no_nb = any(br == "then" and any(this_field(x) == ranks_f for x in walk(c)) and any(is_call(x) and callee_name(x) == "empty" for x in walk(c))
+                                and not (c.get("k") == "Un" and c.get("op") == "!") for c, br in conds)
+                    single = any(br == "then" and any(is_call(x) and callee_name(x) == "size" for x in walk(c)) and any(x.get("k") == "Member" and "comm" in x.get("n", "") for x in walk(c)) for c, br in conds)
+                    if single or (no_nb and summed):
+                        continue
+                    problems.append((r_.get("l"), "returns the unweighted %s on a path where the process may have neighbours: shared dofs are counted once per sharing process" % render(e)[:60]))
+                    continue
+                problems.append((r_.get("l"), "return value %s is neither sum(%s.triple_dot(x, y)) nor a guarded unweighted dot" % (render(e)[:70], freqs_f)))
+            if weighted != 1:
+                problems.append((d.line, "%d returns of sum(%s.triple_dot(x, y)) (expected exactly one, the neighbour case)" % (weighted, freqs_f)))
+            ck.ob("E7.gate-dot", ck_ + "::dot", not problems, "; ".join("line %s: %s" % p for p in problems) or
+                  "neighbour case returns sum(%s.triple_dot(x, y)); unweighted dot only for a single process / no neighbours" % freqs_f, d.file, problems[0][0] if problems else d.line)
+        da = one("dot_async")
+        if da is not None:
+            rets = [n for n in walk(da.body) if n.get("k") == "Return"]
+            ok = len(rets) == 1
+            if ok:
+                e = rets[0]["e"]
+                ok = e is not None and e.get("k") == "MCall" and callee_name(e) == "sum_async" and len(e.get("a", [])) >= 1
+                if ok:
+                    t = e["a"][0]
+                    ok = t.get("k") == "MCall" and callee_name(t) == "triple_dot" and this_field(t.get("obj")) == freqs_f and len(t["a"]) == 2 and \
+                        {t["a"][0].get("d"), t["a"][1].get("d")} == {da.params[0]["d"], da.params[1]["d"]}
+                    sq = e["a"][1] if len(e["a"]) > 1 else None
+                    ok = ok and sq is not None and sq.get("k") == "Ref" and sq.get("d") == da.params[2]["d"]
+            ck.ob("E7.gate-dot", ck_ + "::dot_async", ok, "returns sum_async(%s.triple_dot(x, y), sqrt)" % freqs_f if ok else
+                  "dot_async does not return sum_async(%s.triple_dot(x, y), sqrt): %s" % (freqs_f, render(rets[0].get("e")) if rets else "?"), da.file, da.line)
+        # ---- reductions: operation / sqrt parity -------------------------------------------------------
+        for name, (op, sq) in OPS.items():
+            f = one(name)
+            if f is None:
+                continue
+            rs = Resolver(f)
+            rets = [n for n in walk(f.body) if n.get("k") == "Return"]
+            cons = [c for r_ in rets for c in walk(r_.get("e")) if c.get("k") in ("Construct", "TempObj") and strip_targs(c.get("ccls", "")) == "FEAT::Global::SynchScalarTicket" and len(c.get("a", [])) == 4]
+            ok = len(cons) == 1
+            detail = ""
+            if ok:
+                a = {pn: x for x, pn, pt in dfl.call_args_with_params(cons[0], f)}
+                opn = a.get("op")
+                opname = (opn.get("qn") or opn.get("n") or "") if opn is not None and opn.get("k") == "Ref" else ""
+                if not opname.endswith(op):
+                    ok = False
+                    detail += "reduction operation %s, expected Dist::%s; " % (render(opn), op)
+                sqn = a.get("sqrt")
+                if sq is None:
+                    if not (sqn is not None and sqn.get("k") == "Ref" and sqn.get("dk") == "param"):
+                        ok = False
+                        detail += "sqrt flag %s is not passed through; " % render(sqn)
+                elif not (sqn is not None and sqn.get("k") == "Bool" and bool(sqn.get("v")) == sq):
+                    ok = False
+                    detail += "sqrt flag %s, expected %s; " % (render(sqn), sq)
+                xv = a.get("x")
+                if name == "norm2_async":
+                    if not (xv is not None and xv.get("k") == "Bin" and xv.get("op") == "*" and xv["lhs"].get("d") == f.params[0]["d"] and xv["rhs"].get("d") == f.params[0]["d"]):
+                        ok = False
+                        detail += "summand %s, expected x*x; " % render(xv)
+                elif not (xv is not None and xv.get("k") == "Ref" and xv.get("d") == f.params[0]["d"]):
+                    ok = False
+                    detail += "summand %s, expected x; " % render(xv)
+            else:
+                detail = "%d SynchScalarTicket constructions" % len(cons)
+            ck.ob("E4.gate-reduction-op", "%s::%s" % (ck_, name), ok, detail or "SynchScalarTicket(%s, comm, Dist::%s, sqrt=%s)" % ("x*x" if name == "norm2_async" else "x", op, "param" if sq is None else sq), f.file, f.line)
+        # ---- from_1_to_0 and the sync functions --------------------------------------------------------
+        f10 = one("from_1_to_0")
+        if f10 is not None:
+            cps = [c for c in calls_of(f10) if c.get("k") == "MCall" and callee_name(c) == "component_product"]
+            ok = len(cps) == 1
+            if ok:
+                c = cps[0]
+                vd = f10.params[0]["d"]
+                ok = (c.get("obj") or {}).get("d") == vd and len(c["a"]) == 2 and sorted([("p" if x.get("d") == vd else this_field(x)) for x in c["a"]], key=str) == sorted(["p", freqs_f], key=str)
+            ck.ob("E7.gate-discipline", ck_ + "::from_1_to_0", ok, "vector <- vector (*) %s, once" % freqs_f if ok else
+                  "from_1_to_0 must be exactly vector.component_product(vector, %s)" % freqs_f, f10.file, f10.line)
+        for name in ("sync_0", "sync_1", "sync_0_async", "sync_1_async"):
+            f = one(name)
+            if f is None:
+                continue
+            rs = Resolver(f)
+            cfg = f.cfg
+            vd = f.params[0]["d"]
+            cons = [c for c in calls_of(f) if c.get("k") in ("Construct", "TempObj") and strip_targs(c.get("ccls", "")) == "FEAT::Global::SynchVectorTicket" and len(c.get("a", [])) == 4]
+            problems = []
+            if len(cons) != 1:
+                problems.append("%d constructions of a posting SynchVectorTicket (expected exactly one)" % len(cons))
+            for c in cons:
+                a = {pn: x for x, pn, pt in dfl.call_args_with_params(c, f)}
+                if not (a.get("target") is not None and a["target"].get("k") == "Ref" and a["target"].get("d") == vd):
+                    problems.append("ticket target %s is not the vector parameter" % render(a.get("target")))
+                if this_field(a.get("ranks")) != ranks_f:
+                    problems.append("ticket ranks %s, expected %s" % (render(a.get("ranks")), ranks_f))
+                if this_field(a.get("mirrors")) != mirrors_f:
+                    problems.append("ticket mirrors %s, expected %s" % (render(a.get("mirrors")), mirrors_f))
+                conv = [m for m in calls_of(f) if m.get("k") == "MCall" and callee_name(m) == "from_1_to_0"]
+                if "sync_1" in name:
+                    if not (len(conv) == 1 and conv[0].get("a") and conv[0]["a"][0].get("d") == vd and cfg.stmt_dominates(conv[0]["i"], c["i"])):
+                        problems.append("a type-1 synchronisation must scale by the frequencies (from_1_to_0(vector)) exactly once before the exchange")
+                elif conv:
+                    problems.append("a type-0 synchronisation must not scale by the frequencies")
+                if not name.endswith("_async"):
+                    pr = dfl.parents(f).get(id(c))
+                    var = pr[0] if pr and pr[0].get("k") == "Var" else None
+                    if var is None:
+                        problems.append("the ticket is not a named local that is waited for")
+                    else:
+                        from checks.c18 import after_on_all_paths
+                        decl = rs.var_decl_stmt.get(var["d"])
+                        if not after_on_all_paths(f, c, lambda m, var=var: m.get("k") == "MCall" and callee_name(m) == "wait" and (m.get("obj") or {}).get("d") == var["d"]):
+                            problems.append("ticket.wait() is not called on every path after the exchange was started")
+            ck.ob("E7.gate-discipline", "%s::%s" % (ck_, name), not problems, "; ".join(problems) or
+                  "%sSynchVectorTicket(vector, comm, %s, %s)%s" % ("from_1_to_0(vector); " if "sync_1" in name else "", ranks_f, mirrors_f, "" if name.endswith("_async") else "; wait()"), f.file, f.line)
+
+
+VEC_DELEGATE = {
+    # Global::Vector method -> (gate method, arguments: 'v' = own local vector, 'x' = x.local(), True = literal true)
+    "sync_0": ("sync_0", ("v",)), "sync_1": ("sync_1", ("v",)), "from_1_to_0": ("from_1_to_0", ("v",)),
+    "sync_0_async": ("sync_0_async", ("v",)), "sync_1_async": ("sync_1_async", ("v",)),
+    "dot": ("dot", ("v", "x")), "dot_async": ("dot_async", ("v", "x")), "norm2_async": ("dot_async", ("v", "v", True)),
+}
+
+
+def check_global_vector(ck, facts):
+    for fn in facts.functions:
+        if fn.tk == "pattern" or strip_targs(fn.cls) != "FEAT::Global::Vector" or fn.name not in VEC_DELEGATE:
+            continue
+        gname, argspec = VEC_DELEGATE[fn.name]
+        key = "%s::%s" % (ckey(fn.cls), fn.name)
+        gcalls = [c for c in calls_of(fn) if c.get("k") == "MCall" and strip_targs(c.get("ccls", "")) == "FEAT::Global::Gate"]
+        problems = []
+        if len(gcalls) != 1:
+            problems.append("%d gate calls (expected one)" % len(gcalls))
+        for c in gcalls:
+            if callee_name(c) != gname:
+                problems.append("delegates to Gate::%s, expected Gate::%s" % (callee_name(c), gname))
+            args = c.get("a", [])
+            if len(args) < len(argspec):
+                problems.append("too few arguments")
+                continue
+            for a, sp in zip(args, argspec):
+                if sp == "v" and this_field(a) is None:
+                    problems.append("argument %s is not the own local vector" % render(a))
+                elif sp == "x" and not (fn.params and param_local(a, fn.params[0]["d"])):
+                    problems.append("argument %s is not x.local()" % render(a))
+                elif sp is True and not (a.get("k") == "Bool" and a.get("v")):
+                    problems.append("sqrt flag %s, expected true" % render(a))
+        ck.ob("E4.vector-delegate", key, not problems, "; ".join(problems) or "-> Gate::%s(%s)" % (gname, ", ".join(map(str, argspec))), fn.file, fn.line)
+    for fn in facts.functions:
+        if fn.tk == "pattern" or strip_targs(fn.cls) != "FEAT::Global::Vector" or fn.name not in ("norm2sqr", "norm2"):
+            continue
+        rets = [n for n in walk(fn.body) if n.get("k") == "Return"]
+        e = rets[0].get("e") if len(rets) == 1 else None
+        if fn.name == "norm2sqr":
+            ok = e is not None and e.get("k") == "MCall" and callee_name(e) == "dot" and (e.get("obj") is None or e["obj"].get("k") == "This") and len(e["a"]) == 1 and render(e["a"][0]) in ("(*this)", "*this")
+        else:
+            ok = e is not None and e.get("k") == "Call" and e.get("callee") == "FEAT::Math::sqrt" and len(e["a"]) == 1 and e["a"][0].get("k") == "MCall" and callee_name(e["a"][0]) == "norm2sqr"
+        ck.ob("E4.vector-delegate", "%s::%s" % (ckey(fn.cls), fn.name), ok, "returns %s" % render(e), fn.file, fn.line)
+
+
+# =====================================================================================================
 # driver
 # =====================================================================================================
 
@@ -383,6 +1130,12 @@ def declare_rules(ck):
     ck.rule("E14.requests-completed", "w", 1)
     ck.rule("E14.buffers-outlive-requests", "w", 1)
     ck.rule("E14.ticket-protocol", "w", 1)
+    ck.rule("E14.neighbour-coherence", "w", 1)
+    ck.rule("E5.handler-commutes", "w", 1)
+    for r in ("E7.matrix-apply-sync", "E7.gate-freqs", "E7.gate-dot", "E4.gate-reduction-op", "E7.gate-discipline", "E4.vector-delegate"):
+        ck.rule(r, "w", 1)
+    for r in ("E5.scatter-kernel-additive", "E2.gather-scatter-agree", "E1.mirror-dispatch", "E1.mirror-roles"):
+        ck.rule(r, "w", 1)
 
 
 def run(tier):
@@ -391,4 +1144,9 @@ def run(tier):
     facts = load(ck)
     check_e0(ck, facts, "double,u64")
     check_requests(ck, facts)
+    check_coherence(ck, facts)
+    check_kernels(ck, facts)
+    check_global_matrix(ck, facts)
+    check_gate(ck, facts)
+    check_global_vector(ck, facts)
     return ck.finish("wip")
